@@ -1405,19 +1405,15 @@ Proof.
   - cbn [exec]. rewrite Hev. reflexivity.
 Qed.
 
-(* NOT PROVED (the statement is the one harness/c03_tr.py samples on random inputs for every compared block, see
-   blk_diff): a whole accepted block of a plain design, executed once by the simulator semantics and once — as the emitted
-   always block — by SvEval from the same signal values, leaves the same value in every signal it writes (blocking
+(* NOT PROVED IN THIS GENERALITY (the statement is the one harness/c03_tr.py samples on random inputs for every compared
+   block, see blk_diff): a whole accepted block, executed once by the simulator semantics and once - as the emitted
+   always block - by SvEval from the same signal values, leaves the same value in every signal it writes (blocking
    assignments: at once; non-blocking: after the commit at the clock edge).
-   Missing to turn it into a theorem: (1) preservation of [corr] by an assignment (the four tr_assign_*_sound theorems give
-   the transferred value and the target place, not yet the relation between the two NEXT states, which needs the
-   pairwise-distinct-spellings part of flat_names_ok and the bit-level lemma that splicing u into bits [l,h) of the field
-   is what SvSizing.store does); (2) SFor: the correspondence between loop_count iterations and the emitted
-   for ( v = LO; v < HI; v += STEP ) executed by SvEval.exec with its fuel; (3) sequencing through tr_stmts with the typing
-   environment threaded by env_after; (4) the pending list of non-blocking writes against nxtv (final_sig).
-   Proved pieces: every expression (tr_expr_sound), conditions (tr_cond_sound, tr_if_sound), single assignments to a
-   signal / field / part select / bit / temporary (tr_assign_sig_sound, tr_assign_slice_sound, tr_assign_index_sound,
-   tr_assign_tmp_sound, tr_stmt_assign_exec). *)
+   PROVED below: tr_comb_block_sound and tr_ff_block_sound - this statement (in the stronger invariant form) for plain designs
+   and blocks accepted by comb_ok / ff_ok: all assignments, nested if / elif / else, sequencing, temporaries, pending
+   non-blocking writes.  What is still missing for the general statement: for loops (the iteration correspondence between
+   loop_count and the fuel loop of SvEval.exec, see the end of this file) and designs with lists of signals / unpacked
+   arrays (the relation [inv] is stated for one scalar variable per signal). *)
 Definition tr_block_sound_partial : Prop :=
   forall nm G t m nsig ntmp nloop wr inputs,
     flat_names_ok m nm G nsig ntmp nloop = true ->
@@ -1788,6 +1784,7 @@ Variable te : Z'.tenv.
 Variable nm : names.
 Variable G : decls.
 Variable ntmp : nat.
+Variable ff : bool.      (* false: always_comb block, true: always_ff block *)
 Hypothesis HP : plain_ok te nm G ntmp = true.
 
 (* what plain_ok gives *)
@@ -1848,7 +1845,20 @@ Proof.
   rewrite <- (Z.mod_pow2_bits_low S W (a + i)) by (clear - L Haw; lia). rewrite Heq. reflexivity.
 Qed.
 
-(* ---- the relation between the simulator state and the SvEval state of the emitted always_comb block ---- *)
+(* ---- the relation between the simulator state and the SvEval state of the emitted always block ----
+   always_comb: nothing is pending.  always_ff: the pending list holds whole-signal writes only, and committing it yields
+   what the simulator's signals hold after the clock edge (final_sig: the value written by <<=, else the current one) *)
+Definition pending_ok (p : list X.pend) : Prop :=
+  Forall (fun rv => exists s f0 ty u, lookup_sig G s [] = Some f0 /\ S.pwidth ty = fw f0 /\
+                      rv = (Some (Z'.mkref (sid nm s) [] [] 0 ty), Z'.VZ u)) p.
+Definition pend_rel (st : state) (x : X.xstate) : Prop :=
+  if ff then
+    pending_ok (X.x_pend x) /\
+    forall s f0, lookup_sig G s [] = Some f0 ->
+      exists U, PM.find (sid nm s) (X.commit (X.x_pend x) (X.x_env x)) = Some (Z'.VZ U) /\
+                U mod 2 ^ fw f0 = final_sig st s mod 2 ^ fw f0
+  else X.x_pend x = [].
+
 Record inv (E : tenv) (st : state) (x : X.xstate) : Prop := mkinv {
   inv_G : tsig E = G;
   inv_sig : forall s f0, lookup_sig G s [] = Some f0 ->
@@ -1864,7 +1874,7 @@ Record inv (E : tenv) (st : state) (x : X.xstate) : Prop := mkinv {
       end;
   inv_typed : forall i v, tmpv st i = Some v -> ttmp E i <> None;
   inv_loop : forall i, tloop E i = None;
-  inv_pend : X.x_pend x = [];
+  inv_pend : pend_rel st x;
   inv_okf : X.x_ok x = true }.
 
 Lemma tmp_decl_find i w : tmp_decl te nm i = Some w -> PM.find (n_tmp nm i) te = Some (S.PBits w, []).
@@ -1973,11 +1983,11 @@ Lemma write_scalar x o ty u U en : PM.find x en = Some (Z'.VZ U) ->
   PM.add x (Z'.VZ (splice U o (o + S.pwidth ty) (u mod 2 ^ S.pwidth ty))) en.
 Proof. intros H. unfold Z'.write_ref. cbn [Z'.r_var Z'.r_idx]. rewrite H. reflexivity. Qed.
 
-Lemma sig_write_inv E st st' x s f0 U' : inv E st x -> lookup_sig G s [] = Some f0 ->
+Lemma sig_write_inv E st st' x s f0 U' : ff = false -> inv E st x -> lookup_sig G s [] = Some f0 ->
   U' mod 2 ^ fw f0 = sigv st' s mod 2 ^ fw f0 -> unchanged_but st s st' ->
   inv E st' (X.mkx (PM.add (sid nm s) (Z'.VZ U') (X.x_env x)) (X.x_pend x) (X.x_ok x)).
 Proof.
-  intros I L0 HU (Hoth & Htmp & Hloop). constructor; cbn [X.x_env X.x_pend X.x_ok].
+  intros Hff I L0 HU (Hoth & Htmp & Hloop). constructor; cbn [X.x_env X.x_pend X.x_ok].
   - apply (inv_G _ _ _ I).
   - intros s' f0' L0'. destruct (Nat.eq_dec s' s) as [->|Hne].
     + rewrite L0 in L0'. injection L0' as <-. exists U'. split; [apply PM.gss|exact HU].
@@ -1993,16 +2003,16 @@ Proof.
     exact Hv.
   - intros i v Hv. rewrite Htmp in Hv. exact (inv_typed _ _ _ I i v Hv).
   - apply (inv_loop _ _ _ I).
-  - apply (inv_pend _ _ _ I).
+  - pose proof (inv_pend _ _ _ I) as Hp. unfold pend_rel in Hp |- *. rewrite Hff in Hp |- *. exact Hp.
   - apply (inv_okf _ _ _ I).
 Qed.
 
 Lemma go_cstmts_eq : forall l E,
   (fix go (l : list stmt) (E : tenv) : bool :=
-     match l with [] => true | x :: r => cstmt_ok te nm ntmp E x && go r (env_after E x) end) l E = cstmts_ok te nm ntmp E l.
+     match l with [] => true | x :: r => cstmt_ok te nm ntmp ff E x && go r (env_after E x) end) l E = cstmts_ok te nm ntmp ff E l.
 Proof. induction l as [|x r IH]; intros E; [reflexivity|]. cbn [cstmts_ok]. rewrite IH. reflexivity. Qed.
 
-Lemma assign_static E lbl l e b : cstmt_ok te nm ntmp E (SAssign lbl l e b) = true -> tmps_ok E ->
+Lemma assign_static E lbl l e b : cstmt_ok te nm ntmp ff E (SAssign lbl l e b) = true -> tmps_ok E ->
   ext E (env_after E (SAssign lbl l e b)) /\ tmps_ok (env_after E (SAssign lbl l e b)).
 Proof.
   intros Hok T. cbn [cstmt_ok] in Hok. apply andb_prop in Hok as [Hok Htmp]. apply andb_prop in Hok as [Hok Hty].
@@ -2021,25 +2031,86 @@ Proof.
     split; [exact Hi|]. rewrite Hw. exact Hd.
 Qed.
 
-Lemma assign_inv E st st' x lbl l e b : cstmt_ok te nm ntmp E (SAssign lbl l e b) = true ->
+(* pending non-blocking writes and the environment they will be committed to *)
+Lemma write_ref_agree xt rr v en1 en2 : Z'.r_var rr <> xt ->
+  (forall y, y <> xt -> PM.find y en1 = PM.find y en2) ->
+  forall y, y <> xt -> PM.find y (Z'.write_ref (Some rr) v en1) = PM.find y (Z'.write_ref (Some rr) v en2).
+Proof.
+  intros Hv Hag y Hy. unfold Z'.write_ref. rewrite (Hag _ Hv).
+  destruct (PM.find (Z'.r_var rr) en2) as [cur|]; [|apply Hag; exact Hy].
+  destruct (Pos.eq_dec y (Z'.r_var rr)) as [->|Hne]; [rewrite !PM.gss; reflexivity|rewrite !PM.gso by exact Hne; apply Hag; exact Hy].
+Qed.
+Lemma commit_agree xt : forall p en1 en2,
+  Forall (fun rv : X.pend => exists rr, fst rv = Some rr /\ Z'.r_var rr <> xt) p ->
+  (forall y, y <> xt -> PM.find y en1 = PM.find y en2) ->
+  forall y, y <> xt -> PM.find y (X.commit p en1) = PM.find y (X.commit p en2).
+Proof.
+  induction p as [|rv p IH]; intros en1 en2 Hp Hag; [exact Hag|].
+  inversion Hp as [|? ? (rr & Hrr & Hv) Hp']; subst. unfold X.commit. cbn [fold_left]. rewrite Hrr.
+  apply (IH _ _ Hp'). apply write_ref_agree; assumption.
+Qed.
+Lemma pending_not_tmp p i : (i < ntmp)%nat -> pending_ok p ->
+  Forall (fun rv : X.pend => exists rr, fst rv = Some rr /\ Z'.r_var rr <> n_tmp nm i) p.
+Proof.
+  intros Hi Hp. induction Hp as [|rv p (s & f0 & ty & u & L0 & _ & ->) _ IH]; constructor; [|exact IH].
+  eexists. split; [reflexivity|]. cbn [Z'.r_var]. exact (sid_tmp s f0 i L0 Hi).
+Qed.
+Lemma splice_full_mod X Y W u : 0 <= W -> 0 <= u < 2 ^ W -> (splice X 0 W u) mod 2 ^ W = (splice Y 0 W u) mod 2 ^ W.
+Proof.
+  intros HW Hu. apply Z.bits_inj'. intros i Hi. destruct (Z.ltb_spec i W) as [L|L].
+  - rewrite !Z.mod_pow2_bits_low by lia.
+    rewrite !splice_testbit by (try lia; rewrite Z.sub_0_r; exact Hu).
+    destruct (Z.leb_spec 0 i) as [_|]; [|lia]. destruct (Z.ltb_spec i W); [reflexivity|lia].
+  - rewrite !Z.mod_pow2_bits_high by lia. reflexivity.
+Qed.
+
+Lemma assign_inv E st st' x lbl l e b : cstmt_ok te nm ntmp ff E (SAssign lbl l e b) = true ->
   inv E st x -> exec G (SAssign lbl l e b) st = Ok st' ->
   inv (env_after E (SAssign lbl l e b)) st' (X.exec te (tr_stmt nm E (SAssign lbl l e b)) x).
 Proof.
   intros Hok I Hex. cbn [cstmt_ok] in Hok. apply andb_prop in Hok as [Hok Htmp]. apply andb_prop in Hok as [Hok Hty].
-  apply andb_prop in Hok as [Hb Hass]. subst b. cbn [exec] in Hex. rewrite <- (inv_G _ _ _ I) in Hex.
+  apply andb_prop in Hok as [Hmode Hass]. cbn [exec] in Hex. rewrite <- (inv_G _ _ _ I) in Hex.
   pose proof (inv_corr _ _ _ I) as HC. rewrite tr_stmt_assign_exec. cbv zeta.
-  set (en := X.x_env x) in *.
+  set (en := X.x_env x) in *. unfold assign_mode_ok in Hmode.
   destruct l as [s p|s p lo hi|s p i|i].
   - (* signal / field *)
     rewrite env_after_assign_sig by (intros j; discriminate).
-    destruct (tr_assign_sig_sound nm E te st en HC lbl s p e true st' Hass Hex) as (f & u & L & Hval & Hu & (Hs' & _) & Hun).
+    destruct (tr_assign_sig_sound nm E te st en HC lbl s p e b st' Hass Hex) as (f & u & L & Hval & Hu & Heff & Hun).
     rewrite (inv_G _ _ _ I) in L.
     destruct (plain_place s p f L) as (ty & f0 & Hres & _ & Hpw & Hfw & Hflo & _ & L0 & Hf0 & Hin).
     destruct (inv_sig _ _ _ I s f0 L0) as (U & Hfind & HU). fold en in Hfind.
-    rewrite Hval. cbn [tr_lhs]. rewrite Hres, (write_scalar _ _ _ _ U en Hfind), Hpw, (Z.mod_small u) by exact Hu.
-    apply (sig_write_inv E st st' x s f0 _ I L0); [|exact Hun].
-    rewrite Hs'. apply splice_mod_congr; try lia. replace (flo f + fw f - flo f) with (fw f) by lia. exact Hu.
+    rewrite Hval. cbn [tr_lhs]. rewrite Hres.
+    destruct ff eqn:Hff.
+    + (* always_ff: sig <<= e *)
+      destruct p; [|discriminate]. destruct b; [discriminate|]. destruct Heff as [Hnx Hsig]. destruct Hun as (Hoth & Htmp' & Hloop).
+      rewrite L0 in L. injection L as <-. rewrite Hf0 in *.
+      pose proof (inv_pend _ _ _ I) as Hp. unfold pend_rel in Hp. rewrite Hff in Hp. destruct Hp as [Hshape Hrel].
+      constructor; cbn [X.x_env X.x_pend X.x_ok].
+      * apply (inv_G _ _ _ I).
+      * intros s' f0' L0'. rewrite Hsig. exact (inv_sig _ _ _ I s' f0' L0').
+      * apply (inv_tdecl _ _ _ I).
+      * intros i w ex mi bo Ht. rewrite Htmp'. exact (inv_tmp _ _ _ I i w ex mi bo Ht).
+      * intros i v Hv. rewrite Htmp' in Hv. exact (inv_typed _ _ _ I i v Hv).
+      * apply (inv_loop _ _ _ I).
+      * unfold pend_rel. rewrite Hff. cbn [X.x_env X.x_pend]. split.
+        -- apply Forall_app. split; [exact Hshape|]. constructor; [|constructor]. exists s, f0, ty, u. auto.
+        -- intros s' f0' L0'. rewrite P.commit_app. unfold X.commit at 1. cbn [fold_left fst snd].
+           destruct (Hrel s f0 L0) as (U1 & Hf1 & _).
+           rewrite (write_scalar _ _ _ _ U1 _ Hf1), Hpw, (Z.mod_small u) by exact Hu.
+           destruct (Nat.eq_dec s' s) as [->|Hne].
+           ++ rewrite L0 in L0'. injection L0' as <-. eexists. split; [apply PM.gss|].
+              unfold final_sig. rewrite Hnx. apply splice_full_mod; lia.
+           ++ destruct (Hrel s' f0' L0') as (U2 & Hf2 & Hu2). exists U2. split.
+              ** rewrite PM.gso; [exact Hf2|]. intros Heq. apply Hne. exact (sid_inj s' s f0' f0 L0' L0 Heq).
+              ** unfold final_sig in *. destruct (Hoth s' Hne) as [-> ->]. exact Hu2.
+      * apply (inv_okf _ _ _ I).
+    + (* always_comb: sig @= e *)
+      subst b. destruct Heff as [Hs' _].
+      rewrite (write_scalar _ _ _ _ U en Hfind), Hpw, (Z.mod_small u) by exact Hu.
+      apply (sig_write_inv E st st' x s f0 _ Hff I L0); [|exact Hun].
+      rewrite Hs'. apply splice_mod_congr; try lia. replace (flo f + fw f - flo f) with (fw f) by lia. exact Hu.
   - (* part select *)
+    destruct ff eqn:Hff; [discriminate|]. subst b.
     rewrite env_after_assign_sig by (intros j; discriminate).
     destruct (tr_assign_slice_sound nm E te st en HC lbl s p lo hi e st' Hass Hex)
       as (f & x0 & ix & o & l & h & u & L & Hl & Hlh & Hh & Hrs & Hrl & Hval & Hu & Hs' & _ & Hun).
@@ -2048,10 +2119,11 @@ Proof.
     rewrite Hres in Hrs. injection Hrs as <- <- <- _.
     destruct (inv_sig _ _ _ I s f0 L0) as (U & Hfind & HU). fold en in Hfind.
     rewrite Hval, Hrl, (write_scalar _ _ _ _ U en Hfind). cbn [S.pwidth]. rewrite (Z.mod_small u) by exact Hu.
-    apply (sig_write_inv E st st' x s f0 _ I L0); [|exact Hun].
+    apply (sig_write_inv E st st' x s f0 _ Hff I L0); [|exact Hun].
     rewrite Hs', splice_nested by lia. replace (flo f + l + (h - l)) with (flo f + h) by lia.
     apply splice_mod_congr; try lia. replace (flo f + h - (flo f + l)) with (h - l) by lia. exact Hu.
   - (* bit *)
+    destruct ff eqn:Hff; [discriminate|]. subst b.
     rewrite env_after_assign_sig by (intros j; discriminate).
     destruct (tr_assign_index_sound nm E te st en HC lbl s p i e st' Hass Hex)
       as (f & x0 & ix & o & k & u & L & Hk & Hrs & Hrl & Hval & Hu & Hs' & _ & Hun).
@@ -2061,17 +2133,18 @@ Proof.
     destruct (inv_sig _ _ _ I s f0 L0) as (U & Hfind & HU). fold en in Hfind.
     assert (0 <= u < 2 ^ (k + 1 - k)) as Hu' by (replace (k + 1 - k) with 1 by lia; exact Hu).
     rewrite Hval, Hrl, (write_scalar _ _ _ _ U en Hfind). cbn [S.pwidth]. change (2 ^ 1) with 2. rewrite (Z.mod_small u) by exact Hu.
-    apply (sig_write_inv E st st' x s f0 _ I L0); [|exact Hun].
+    apply (sig_write_inv E st st' x s f0 _ Hff I L0); [|exact Hun].
     rewrite Hs', splice_nested by lia. replace (flo f + k + 1) with (flo f + (k + 1)) by lia.
     apply splice_mod_congr; try lia. replace (flo f + (k + 1) - (flo f + k)) with (k + 1 - k) by lia. exact Hu'.
   - (* temporary *)
+    assert (b = true) as -> by (destruct ff; exact Hmode).
     destruct (env_after_assign_tmp E lbl i e true Hty) as (r & Hr & ->).
     unfold tmp_assign_ok in Htmp. apply andb_prop in Htmp as [Hi Htmp]. apply Nat.ltb_lt in Hi. rewrite Hr in Htmp.
     destruct (tmp_decl te nm i) as [w|] eqn:Hd; [|discriminate].
     apply andb_prop in Htmp as [Htmp _]. apply andb_prop in Htmp as [Hw Hkind]. apply Z.eqb_eq in Hw.
     pose proof (tmp_decl_find i w Hd) as Hdecl.
     destruct (tr_assign_tmp_sound nm E te st en HC lbl i e w st' Hdecl Hass Hex)
-      as (v & Hev & Htv & Htoth & Hsig & _ & Hloop & Hval & Hvr).
+      as (v & Hev & Htv & Htoth & Hsig & Hnxt & Hloop & Hval & Hvr).
     destruct (inv_tdecl _ _ _ I i w Hi Hd) as (Ut & Hfind & HUt). fold en in Hfind.
     destruct (tmp_declared i Hi) as (w' & Hd' & Hww). rewrite Hd in Hd'. injection Hd' as <-.
     assert (Z'.resolve te en (tr_lhs nm E (LTmp i)) = Some (Z'.mkref (n_tmp nm i) [] [] 0 (S.PBits w))) as Htgt
@@ -2110,15 +2183,21 @@ Proof.
     + intros j v0 Hv0. cbn [set_ttmp ttmp]. unfold upd_t. destruct (Nat.eqb j i) eqn:J; [discriminate|].
       apply Nat.eqb_neq in J. rewrite (Htoth j J) in Hv0. exact (inv_typed _ _ _ I j v0 Hv0).
     + cbn [set_ttmp tloop]. apply (inv_loop _ _ _ I).
-    + apply (inv_pend _ _ _ I).
+    + pose proof (inv_pend _ _ _ I) as Hp. unfold pend_rel in Hp |- *. cbn [X.x_pend X.x_env]. destruct ff; [|exact Hp].
+      destruct Hp as [Hshape Hrel]. split; [exact Hshape|]. intros s f0 L0. destruct (Hrel s f0 L0) as (U & Hf & Hu).
+      exists U. split.
+      * rewrite <- Hf. apply (commit_agree (n_tmp nm i) _ _ _ (pending_not_tmp _ i Hi Hshape)).
+        -- intros y Hy. apply PM.gso. exact Hy.
+        -- exact (sid_tmp s f0 i L0 Hi).
+      * unfold final_sig in *. rewrite Hsig, Hnxt. exact Hu.
     + apply (inv_okf _ _ _ I).
 Qed.
 
 (* ---- statements, sequences, if / elif / else ---- *)
-Definition stmt_prop (s : stmt) : Prop := forall E, cstmt_ok te nm ntmp E s = true -> tmps_ok E ->
+Definition stmt_prop (s : stmt) : Prop := forall E, cstmt_ok te nm ntmp ff E s = true -> tmps_ok E ->
   (ext E (env_after E s) /\ tmps_ok (env_after E s)) /\
   forall st x st', inv E st x -> exec G s st = Ok st' -> inv (env_after E s) st' (X.exec te (tr_stmt nm E s) x).
-Definition stmts_prop (l : list stmt) : Prop := forall E, cstmts_ok te nm ntmp E l = true -> tmps_ok E ->
+Definition stmts_prop (l : list stmt) : Prop := forall E, cstmts_ok te nm ntmp ff E l = true -> tmps_ok E ->
   (ext E (env_after_list E l) /\ tmps_ok (env_after_list E l)) /\
   forall st x st', inv E st x -> exec_list (exec G) l st = Ok st' ->
     inv (env_after_list E l) st' (X.exec_list te (tr_stmts nm E l) x).
@@ -2160,40 +2239,42 @@ Proof.
   - (* for *) intros E Hok. discriminate Hok.
 Qed.
 
-(* the block theorem: a combinational block accepted by comb_ok, run once by the simulator semantics from st and - as the
-   emitted always_comb body - by SvEval from a related state x, ends in related states *)
-Theorem tr_comb_block_sound_gen b st st' x : comb_ok te nm ntmp G b = true ->
+(* the block theorem: a block accepted by cstmts_ok (comb_ok / ff_ok), run once by the simulator semantics from st and - as
+   the emitted always body - by SvEval from a related state x, ends in related states *)
+Theorem tr_block_sound_gen b st st' x : cstmts_ok te nm ntmp ff (init_tenv G) b = true ->
   inv (init_tenv G) st x -> exec_block G b st = Ok st' ->
   inv (env_after_list (init_tenv G) b) st' (X.exec_list te (tr_block nm G b) x).
 Proof.
-  intros Hok I Hex. unfold comb_ok in Hok.
+  intros Hok I Hex.
   assert (tmps_ok (init_tenv G)) as T0 by (intros i w ex mi bo H; discriminate H).
   assert (Forall stmt_prop b) as Hall by (apply Forall_forall; intros s _; apply stmt_prop_all).
   destruct (stmts_of b Hall (init_tenv G) Hok T0) as [_ D].
   exact (D st x st' I Hex).
 Qed.
 
-(* a way into the relation: the state in which an always_comb block starts *)
-Lemma inv_init st en : (forall i, tmpv st i = None) ->
+(* a way into the relation: the state in which an always block starts *)
+Lemma inv_init st en : (forall i, tmpv st i = None) -> (ff = true -> forall s, nxtv st s = None) ->
   (forall s f0, lookup_sig G s [] = Some f0 -> PM.find (sid nm s) en = Some (Z'.VZ (sigv st s))) ->
   (forall i w, (i < ntmp)%nat -> tmp_decl te nm i = Some w -> exists U, PM.find (n_tmp nm i) en = Some (Z'.VZ U) /\ 0 <= U < 2 ^ w) ->
   inv (init_tenv G) st (X.mkx en [] true).
 Proof.
-  intros Ht Hs Hd. constructor; cbn [X.x_env X.x_pend X.x_ok]; try reflexivity.
+  intros Ht Hn Hs Hd. constructor; cbn [X.x_env X.x_pend X.x_ok]; try reflexivity.
   - intros s f0 L0. exists (sigv st s). split; [exact (Hs s f0 L0)|reflexivity].
   - exact Hd.
   - intros i w ex mi bo H. discriminate H.
   - intros i v Hv. rewrite Ht in Hv. discriminate.
+  - unfold pend_rel. cbn [X.x_env X.x_pend]. destruct ff; [|reflexivity]. split; [constructor|].
+    intros s f0 L0. exists (sigv st s). split; [exact (Hs s f0 L0)|]. unfold final_sig. rewrite (Hn eq_refl s). reflexivity.
 Qed.
 
-(* what the relation says about the SvEval environment *)
+(* what the relation says about the SvEval environment: current values ... *)
 Lemma inv_reads E st x : inv E st x ->
-  X.x_pend x = [] /\ X.x_ok x = true /\
+  X.x_ok x = true /\
   (forall s p f, lookup_sig G s p = Some f ->
      Z'.read_bits (X.x_env x) (Z'.resolve te (X.x_env x) (tr_sig nm s p)) = (sigv st s / 2 ^ flo f) mod 2 ^ fw f) /\
   (forall i v, tmpv st i = Some v -> Z'.lookup (X.x_env x) (n_tmp nm i) = Z'.VZ (value_int v)).
 Proof.
-  intros I. split; [exact (inv_pend _ _ _ I)|]. split; [exact (inv_okf _ _ _ I)|]. split.
+  intros I. split; [exact (inv_okf _ _ _ I)|]. split.
   - intros s p f L. destruct (inv_corr _ _ _ I) as (HS & _ & _). rewrite <- (inv_G _ _ _ I) in L.
     destruct (HS s p f L) as (rr & u & Hres & Hd & _ & Hpw & _ & _ & _ & Hget & Hval).
     rewrite Hres. cbn [Z'.read_bits]. rewrite Hd, Hget, Hpw. exact Hval.
@@ -2201,20 +2282,62 @@ Proof.
     destruct (inv_tmp _ _ _ I i w ex mi bo Ht) as (_ & _ & Hval). specialize (Hval v Hv). unfold Z'.lookup.
     destruct v as [n u|z]; [destruct Hval as (_ & _ & ->)|destruct Hval as (_ & ->)]; reflexivity.
 Qed.
+(* ... and, for an always_ff block, the values after the commit at the clock edge *)
+Lemma inv_reads_ff E st x : ff = true -> inv E st x ->
+  forall s p f, lookup_sig G s p = Some f ->
+    let enc := X.commit (X.x_pend x) (X.x_env x) in
+    Z'.read_bits enc (Z'.resolve te enc (tr_sig nm s p)) = (final_sig st s / 2 ^ flo f) mod 2 ^ fw f.
+Proof.
+  intros Hff I s p f L enc. pose proof (inv_pend _ _ _ I) as Hp. unfold pend_rel in Hp. rewrite Hff in Hp. destruct Hp as [_ Hrel].
+  destruct (plain_place s p f L) as (ty & f0 & Hres & _ & Hpw & Hfw & Hflo & _ & L0 & Hf0 & Hin).
+  destruct (Hrel s f0 L0) as (U & Hfind & HU). fold enc in Hfind.
+  rewrite Hres. cbn [Z'.read_bits Z'.r_dims Z'.r_var Z'.r_idx Z'.r_lo Z'.r_ty Z'.vget]. unfold Z'.lookup. rewrite Hfind, Hpw.
+  apply (field_of_mod U (final_sig st s) (fw f0)); [exact HU|lia|lia|lia].
+Qed.
+Lemma inv_pend_comb E st x : ff = false -> inv E st x -> X.x_pend x = [].
+Proof. intros Hff I. pose proof (inv_pend _ _ _ I) as Hp. unfold pend_rel in Hp. rewrite Hff in Hp. exact Hp. Qed.
 End Block.
 
-(* the statement of Props/C03_tr.v *)
+(* the statements of Props/C03_tr.v *)
 Theorem tr_comb_block_sound te nm G ntmp b st st' x :
   plain_ok te nm G ntmp = true -> comb_ok te nm ntmp G b = true ->
-  inv te nm G ntmp (init_tenv G) st x -> exec_block G b st = Ok st' ->
+  inv te nm G ntmp false (init_tenv G) st x -> exec_block G b st = Ok st' ->
   let x' := X.exec_list te (tr_block nm G b) x in
   X.x_pend x' = [] /\ X.x_ok x' = true /\
   (forall s p f, lookup_sig G s p = Some f ->
      Z'.read_bits (X.x_env x') (Z'.resolve te (X.x_env x') (tr_sig nm s p)) = (sigv st' s / 2 ^ flo f) mod 2 ^ fw f) /\
   (forall i v, tmpv st' i = Some v -> Z'.lookup (X.x_env x') (n_tmp nm i) = Z'.VZ (value_int v)).
 Proof.
-  intros HP Hok I Hex. cbv zeta. eapply inv_reads; [exact HP|]. eapply tr_comb_block_sound_gen; eassumption.
+  intros HP Hok I Hex. cbv zeta.
+  pose proof (tr_block_sound_gen te nm G ntmp false HP b st st' x Hok I Hex) as I'.
+  split; [exact (inv_pend_comb _ _ _ _ _ _ _ _ eq_refl I')|]. exact (inv_reads te nm G ntmp false HP _ _ _ I').
 Qed.
+
+Theorem tr_ff_block_sound te nm G ntmp b st st' x :
+  plain_ok te nm G ntmp = true -> ff_ok te nm ntmp G b = true ->
+  inv te nm G ntmp true (init_tenv G) st x -> exec_block G b st = Ok st' ->
+  let x' := X.exec_list te (tr_block nm G b) x in
+  let enc := X.commit (X.x_pend x') (X.x_env x') in
+  X.x_ok x' = true /\
+  (forall s p f, lookup_sig G s p = Some f ->
+     Z'.read_bits enc (Z'.resolve te enc (tr_sig nm s p)) = (final_sig st' s / 2 ^ flo f) mod 2 ^ fw f) /\
+  (forall s p f, lookup_sig G s p = Some f ->
+     Z'.read_bits (X.x_env x') (Z'.resolve te (X.x_env x') (tr_sig nm s p)) = (sigv st' s / 2 ^ flo f) mod 2 ^ fw f) /\
+  (forall i v, tmpv st' i = Some v -> Z'.lookup (X.x_env x') (n_tmp nm i) = Z'.VZ (value_int v)).
+Proof.
+  intros HP Hok I Hex. cbv zeta.
+  pose proof (tr_block_sound_gen te nm G ntmp true HP b st st' x Hok I Hex) as I'.
+  destruct (inv_reads te nm G ntmp true HP _ _ _ I') as (H1 & H2 & H3).
+  split; [exact H1|]. split; [exact (inv_reads_ff te nm G ntmp true HP _ _ _ eq_refl I')|]. split; assumption.
+Qed.
+
+(* NOT PROVED: for loops (cstmt_ok refuses SFor), and designs that are not plain (lists of signals).  They stay under
+   tr_block_sound_partial above, which harness/c03_tr.py samples.  Missing lemma for SFor: the iteration correspondence - by
+   induction on loop_count lo hi step, the k-th iteration of Eval.exec's loop (loop variable lo + k*step) and the k-th
+   unfolding of SvEval.exec's fuel loop (loop_cond  v < HI  evaluated at max(32, width of the literal), loop_incr at 32 bits)
+   start in related states with the counter holding lo + k*step < 2^32, the fuel lo + hi + 1 is never exhausted (x_ok stays
+   true) and loop_cond is false after the last iteration; it needs [inv] extended by the loop_corr clause for bound
+   counters (inv_loop says "none" today), for_ok, and the frame fact that the body never writes the counter. *)
 
 (* ------------------------------------------------------------------ a concrete plain design with a temporary (non-vacuity)
      s.a = InPort(8)  s.o = OutPort(8)  s.b = InPort(4)
@@ -2250,12 +2373,39 @@ Proof. vm_compute. reflexivity. Qed.
 Lemma comb2 : comb_ok te2 nm2 1 G blk2 = true.
 Proof. vm_compute. reflexivity. Qed.
 
-Lemma inv2 a b : inv te2 nm2 G 1 (init_tenv G) (st2 a b) (X.mkx (en2 a b) [] true).
+Lemma inv2 a b : inv te2 nm2 G 1 false (init_tenv G) (st2 a b) (X.mkx (en2 a b) [] true).
 Proof.
   apply inv_init.
   - intros i. reflexivity.
+  - discriminate.
   - intros s f0 L. cbn in L. destruct s as [|[|[|s]]]; cbn in L; try discriminate; reflexivity.
   - intros i w Hi Hd. assert (i = 0%nat) by lia. subst i. vm_compute in Hd. injection Hd as <-.
     exists 0. split; [reflexivity|cbn; lia].
 Qed.
 End TrExample2.
+
+(* ... and an always_ff block of the same design:
+     @update_ff
+     def reg():
+       t = s.b + 1
+       if s.a[0]:  s.o <<= zext( t, 8 )
+       else:       s.o <<= s.a                                                                                      *)
+Module TrExample3.
+Import TrExample TrExample2.
+Definition blk3 : list stmt :=
+  [ SAssign 0 (LTmp 0) (EBin Add (ESig 2 []) (ELit 1)) true;
+    SIf 1 (EIdx (ESig 0 []) (ELit 0))
+      [ SAssign 2 (LSig 1 []) (EZext 8 (ETmp 0)) false ]
+      [ SAssign 3 (LSig 1 []) (ESig 0 []) false ] ].
+Lemma ff3 : ff_ok te2 nm2 1 G blk3 = true.
+Proof. vm_compute. reflexivity. Qed.
+Lemma inv3 a b : inv te2 nm2 G 1 true (init_tenv G) (st2 a b) (X.mkx (en2 a b) [] true).
+Proof.
+  apply inv_init.
+  - intros i. reflexivity.
+  - intros _ s. reflexivity.
+  - intros s f0 L. cbn in L. destruct s as [|[|[|s]]]; cbn in L; try discriminate; reflexivity.
+  - intros i w Hi Hd. assert (i = 0%nat) by lia. subst i. vm_compute in Hd. injection Hd as <-.
+    exists 0. split; [reflexivity|cbn; lia].
+Qed.
+End TrExample3.
